@@ -404,7 +404,12 @@ def build_pdf(c, rng, plain):
     w.encrypt(user_password=user, owner_password=owner, algorithm=c["alg"])
     b = io.BytesIO()
     w.write(b)
-    return b.getvalue()
+    data = b.getvalue()
+    # harness self-check (pypdf as a tool): the user password opens the file as owner exactly when owner = "same"
+    got = int(PdfReader(io.BytesIO(data)).decrypt(user))
+    if got != (2 if c["owner"] == "same" else 1):
+        raise ValueError(f"c08 pdf builder: {c} written with user={user!r} owner={owner!r} opens as {got}")
+    return data
 
 
 def project_pdf(data, user_empty=None):
